@@ -721,7 +721,7 @@ def add_lic_links(rng, case, used=()):
 
     def dir_target(kind, k, below_lic=True):
         if kind == "nested":
-            return NESTED[k % 3] + ("/d%d" % k if k > 3 else "")
+            return NESTED[k % 3]
         if kind == "dotreuse":
             return ".reuse/texts-%d" % k
         if kind == "hidden" and below_lic:
@@ -820,7 +820,7 @@ def add_lic_links(rng, case, used=()):
                 _put(case, at, _link(at, to))
         else:
             # a hidden link to a directory that holds a text
-            to = dir_target(rng.choice(["dotreuse", "nested"]), k)
+            to = rng.choice([".reuse/more-%d" % k, "tools/LICENSES"])      # (a place no other link leads to)
             at = place_of(".more")
             if _put(case, to + "/" + x + ".txt", ["f", {"t": "raw", "s": "licence text below a hidden link\n"}]):
                 _put(case, at, _link(at, to))
